@@ -11,7 +11,7 @@ compares the timers' states with the specification's.
 import io
 import threading
 
-TIMEOUT = 20.0
+TIMEOUT = 60.0
 
 
 class Mismatch(Exception):
@@ -52,7 +52,8 @@ class Sched:
         with self.cv:
             ok = self.cv.wait_for(lambda: th in self.waiting or th in self.finished, TIMEOUT)
         if not ok:
-            raise Mismatch("thread %s neither reached a statement nor finished" % th)
+            # a scheduling time-out is a failure of the harness (machine overloaded?), never a verdict
+            raise RuntimeError("thread %s neither reached a statement nor finished within %ss" % (th, TIMEOUT))
 
     def grant(self, th, expect):
         self.settle(th)
